@@ -124,6 +124,8 @@ def _xml_lines(ctx, repo) -> None:
 
 def check(ctx) -> None:
     repo = ctx.repo
+    ctx.rule("C35.html", "the lexer the HTML template instantiates yields one highlighted line per source line (evaluated with the repository's pygments over modules with leading / inner blank lines)", floor=3)
+    _html_alignment(ctx, repo)
     ctx.rule("C35.annotation", "ABSINT: the per-line branch annotation equals (code-object entry, predicate entry, their sum) for every membership combination of the line; entry / annotation addition is component-wise", floor=7)
     ctx.rule("C35.totals", "the report totals are sums over the values of the same per-line dictionaries that feed the annotations; every source line gets an annotation", floor=5)
     ctx.rule("C35.same-metric", "branch / line coverage of the report are compute_branch_coverage / compute_line_coverage on the trace merged from the last result of every test case", floor=4)
@@ -261,3 +263,37 @@ def check(ctx) -> None:
     }
     for k, v in want.items():
         ctx.check("C35.xml", x, env.get(k) == v, f"XML total `{k}` is {env.get(k)}", what=f"{k} = {v}", stmt=f"[{k}]")
+
+
+def _html_alignment(ctx, repo) -> None:
+    """The HTML report prints line numbers and coverage markers for every source line next to the highlighted code: the
+    lexer handed to the template must produce one output line per source line (leading blank lines are kept)."""
+    import functools
+
+    from sa.engine import peval
+
+    fn = repo.func(RP, "render_coverage_report")
+    ctx.analysed(fn)
+    mod = repo.module(RP)
+    kws = [k for c in own_nodes(fn) if isinstance(c, ast.Call) and last_attr(c) == "render" for k in c.keywords if k.arg == "lexer"]
+    if len(kws) != 1:
+        raise AnalysisError("C35.html: render_coverage_report no longer hands a `lexer` to the template")
+    try:
+        import pygments
+        from pygments.formatters.html import HtmlFormatter
+        from pygments.lexers.python import PythonLexer
+    except ImportError as exc:  # pygments is a dependency of the repository's own environment
+        raise AnalysisError(f"C35.html: pygments is not importable in the checker's interpreter: {exc}") from exc
+    it = peval.Interp(resolver=peval.repo_resolver(repo), consts={"PythonLexer": PythonLexer, "functools": functools, "functools.partial": functools.partial, "partial": functools.partial}, native_types=(type, functools.partial), max_steps=1000, externs={"functools.partial": functools.partial, "partial": functools.partial})
+    try:
+        factory = it.ev(kws[0].value, {}, mod)
+        lexer = factory()
+    except (peval.Undecided, peval.Raises, TypeError) as exc:
+        ctx.undecide("C35.html", fn, f"lexer expression `{norm(kws[0].value)}`: {exc}")
+        return
+    for label, src in (("three leading blank lines", "\n\n\ndef f(x):\n    if x:\n        return 1\n    return 2\n"), ("no leading blank line", "def f(x):\n    return x\n"), ("blank lines inside", "def f(x):\n\n\n    return x\n")):
+        out = pygments.highlight(src, lexer, HtmlFormatter())
+        body = out[out.index("<pre>") + 5 : out.rindex("</pre>")]
+        n_out = len(body.split("\n")) - 1
+        n_src = len(src.splitlines())
+        ctx.check("C35.html", kws[0].value, n_out == n_src, f"[{label}] the highlighted code has {n_out} lines, the module {n_src}: every coverage marker and line number after the stripped lines stands next to the wrong code line (an uncovered `return 2` is shown as covered)", what=f"[{label}] one highlighted line per source line", stmt=f"[html] {label}")
